@@ -26,6 +26,10 @@ type mnode struct {
 	Reg      int               // index into the registration list (add)
 	T        int               // type id (remove*)
 	KeyKind  int               // removeKeyed: which key value (see rmKeys)
+	// a module node may occur at several places of the tree (one module value included by two
+	// parents, or applied again later): the option is built once per world and reused
+	optFor *kit.World
+	opt    godi.ModuleOption
 }
 
 // rmKey is a defined string type: a key of this type is not the name "a" that
@@ -84,12 +88,18 @@ func removeOption(t int, keyed bool, key any) godi.ModuleOption {
 	return o.plain
 }
 
+// genTreeShared is genTree with a pool of finished module nodes that later parts of the tree may
+// include again: the very same module value, a second time.
+var sharedPool *[]*mnode
+
 func genTree(rt *rapid.T, depth int, regs *[]kit.Reg) *mnode {
 	n := &mnode{Name: rapid.SampledFrom([]string{"m0", "m1", "m2", "app", ""}).Draw(rt, "mname"), Twice: rapid.IntRange(0, 2).Draw(rt, "twice") == 0}
 	k := rapid.IntRange(0, 5).Draw(rt, "fanout")
 	for i := 0; i < k; i++ {
 		c := rapid.IntRange(0, 9).Draw(rt, "child")
 		switch {
+		case c <= 1 && sharedPool != nil && len(*sharedPool) > 0 && rapid.IntRange(0, 3).Draw(rt, "shareModule") == 0:
+			n.Children = append(n.Children, rapid.SampledFrom(*sharedPool).Draw(rt, "sharedModule"))
 		case c <= 1 && depth < 5:
 			n.Children = append(n.Children, genTree(rt, depth+1, regs))
 		case c == 2 && rapid.IntRange(0, 3).Draw(rt, "nilservice") == 0:
@@ -104,6 +114,9 @@ func genTree(rt *rapid.T, depth int, regs *[]kit.Reg) *mnode {
 			*regs = append(*regs, reg)
 			n.Children = append(n.Children, &mnode{Leaf: "add", Reg: len(*regs) - 1})
 		}
+	}
+	if sharedPool != nil && len(n.Children) > 0 {
+		*sharedPool = append(*sharedPool, n)
 	}
 	return n
 }
@@ -129,11 +142,15 @@ func (n *mnode) option(w *kit.World) godi.ModuleOption {
 	case "gate":
 		return n.Gate
 	}
+	if n.optFor == w && n.opt != nil {
+		return n.opt // the same module value, included once more
+	}
 	opts := make([]godi.ModuleOption, len(n.Children))
 	for i, c := range n.Children {
 		opts[i] = c.option(w)
 	}
 	m := godi.NewModule(n.Name, opts...)
+	defer func() { n.optFor, n.opt = w, m }()
 	if n.Twice {
 		// the same entry list (a slice the caller keeps) is used to build the module a second time:
 		// building a module must not change the list it was given
@@ -186,8 +203,15 @@ func TestC20Modules(t *testing.T) {
 		var regs []kit.Reg
 		ntop := rapid.IntRange(1, 3).Draw(rt, "ntop")
 		var tops []*mnode
+		pool := []*mnode{}
+		sharedPool = &pool // finished modules may be included again further to the right
 		for i := 0; i < ntop; i++ {
 			tops = append(tops, genTree(rt, 1, &regs))
+		}
+		sharedPool = nil
+		if len(pool) > 0 && rapid.IntRange(0, 3).Draw(rt, "reapply") == 0 {
+			// a module that has been applied is applied once more at the very end
+			tops = append(tops, rapid.SampledFrom(pool).Draw(rt, "reapplied"))
 		}
 		mk := func() (*kit.World, godi.Collection) {
 			cfg := &kit.Config{Regs: append([]kit.Reg(nil), regs...)}
